@@ -36,6 +36,7 @@ W = {
     'forwarded-write-lands-in-database-0': dict(rkind='cluster', clocks=CL, ops=[c(1, 1, 'set', 'fw', 'v', bar=True)]),
     'forwarded-identical-writes-collapse': dict(rkind='cluster', clocks=CL, ops=[c(1, 0, 'rpush', 'l1', 'x'), c(1, 0, 'rpush', 'l1', 'x', bar=True)]),
     'read-served-locally-mutates-that-replica': dict(rkind='cluster', clocks=CL, ops=[c(0, 0, 'sadd', 't1', 'a', 'b'), c(0, 0, 'sadd', 't2', 'c', bar=True), c(2, 0, 'sunion', 't1', 't2', bar=True)]),
+    'effect-depends-on-map-iteration-order': dict(rkind='fsm', clocks=[0, 1, 2, 3, 4, 5], ops=[e(0, 'sadd', 'k1', 'a'), e(0, 'sadd', 'k2', 'b'), e(0, 'sadd', 'k3', 'c'), e(0, 'sunionstore', 'k4', 'k1', 'k2', 'k3')]),
 }
 
 
@@ -56,9 +57,12 @@ def main():
     ok = True
     for i, cls in enumerate(owners['C07']):
         seq = dict(W[cls], id='k%d' % i)
-        rows = vlib.replay_seq(cx, work, 'raft', seq, 'k')
-        last = rows[-1]
-        v, got = last['f'].get('rep'), last['f'].get('rcls')
+        for attempt in range(6):      # the map-order witness diverges on most, not all, executions
+            rows = vlib.replay_seq(cx, work, 'raft', seq, 'k')
+            last = rows[-1]
+            v, got = last['f'].get('rep'), last['f'].get('rcls')
+            if (v or '').startswith('rej') and got == cls:
+                break
         if not (v or '').startswith('rej') or got != cls or last['model'] not in ('OK', 'SKIP'):
             print('WITNESS DOES NOT REPRODUCE', cls, v, got, last['model'], last['detail'][:200], file=sys.stderr)
             ok = False
